@@ -757,6 +757,15 @@ class C04(AstKindProp):
         from .common import val_of_json
 
         edd = bool(c["opts"].get("emit_default_doc", True))
+        # the whole list of options at statement level (the `require_default` thread of parse.argparse_ast), against the
+        # real emit -> text -> parse of the whole description; prose exactly as it comes back
+        if not c["opts"].get("word_wrap") and not c["opts"].get("emitted_before") and c["ir"]["params"] and c["ir"]["returns"] is None:
+            try:
+                _, _, back = self.conv(c)
+                impl = {"ok": [[n, _canon_param_out(q)] for n, q in back["params"].items()]}
+            except Exception as e:
+                impl = {"raises": exc_kind(e)}
+            res.append(("argparse_params", {"op": "argparse_params", "ir": c["ir"], "emit": edd}, impl))
         for k, (n, p) in enumerate(c["ir"]["params"]):
             q = {key: v for key, v in p.items() if key != "default"}
             if "default" in p:
@@ -792,6 +801,8 @@ class C04(AstKindProp):
     def canon_model(self, layer, op, ans):
         if layer == "param2argparse" and "ok" in ans:
             return {"ok": _canon_addarg(ans["ok"])}
+        if layer == "argparse_params" and "ok" in ans:
+            return {"ok": [[n, {"typ": _canon_type(o.get("typ")), "doc": o.get("doc"), "default": canon_val(o.get("default"))}] for n, o in ans["ok"]]}
         if layer == "parse_out_param" and "ok" in ans:
             o = ans["ok"]
             return {"ok": {"typ": _canon_type(o.get("typ")), "doc": o.get("doc"), "default": canon_val(o.get("default"))}}
